@@ -202,6 +202,28 @@ class AppEnv:
                 models.db.session.add(mf)
             models.db.session.commit()
 
+    def add_mps(self, name, periods, title=None):
+        """periods: list of dict(pid, stream, start_s, duration_s, tracks=[(track_id, content_type, role)])"""
+        import datetime as _dt
+        from dashlive.mpeg.dash.content_role import ContentRole
+        models = self.models
+        with self.app.app_context():
+            mps = models.MultiPeriodStream(name=name, title=title or name)
+            models.db.session.add(mps)
+            pks = []
+            for idx, p in enumerate(periods, start=1):
+                stream = models.Stream.get(directory=p['stream'])
+                prd = models.Period(pid=p['pid'], parent=mps, ordering=idx, stream=stream,
+                                    start=_dt.timedelta(seconds=p['start_s']),
+                                    duration=_dt.timedelta(seconds=p['duration_s']))
+                models.db.session.add(prd)
+                for (tid, ctype, role) in p.get('tracks', [(1, 'video', 'MAIN'), (2, 'audio', 'MAIN')]):
+                    ct = models.ContentType.get(name=ctype)
+                    adp = models.AdaptationSet(period=prd, track_id=tid, role=ContentRole[role], content_type=ct)
+                    models.db.session.add(adp)
+            models.db.session.commit()
+            return [prd.pk for prd in mps.periods]
+
     def client(self, role=None):
         c = self.app.test_client()
         if role and role != 'anonymous':
